@@ -11,6 +11,9 @@ Driver operations of C13.
                 answer (`evalSpelling`), the guards (`inScope`, `aliasOnBox`) and the specification
                 (`Spec.C13.outcomeHolds`) on the implementation's levels / contrast matrix / labels /
                 design rows.
+* `c13_rows`    the prediction path: `Spec.C13.rowsFollowLevels` (the predicate `c13_design` uses for
+                the training rows) on the rows `evaluate_new_data` returned for a new column, with
+                the levels and the contrast matrix the factor remembered from training.
 -/
 namespace FormulaeModel.Driver.C13
 open Lean FormulaeModel FormulaeModel.Driver FormulaeModel.Coding FormulaeModel.Spec.C13
@@ -148,9 +151,15 @@ def runDesign (j : Json) : Json :=
   Json.mkObj [("model", model), ("spec", spec), ("in_scope", scope),
     ("classes", jStrs (if aliasOnBox sp then ["aliasOnBox"] else []))]
 
+/-- every row of the new-data matrix is the contrast row of that row's level -/
+def runRows (j : Json) : Json :=
+  Json.mkObj [("rows", rowsFollowLevels (strList j "levels") (strList j "data") (matrixOf j "matrix")
+    (matrixOf j "value"))]
+
 def handle (op : String) (j : Json) : Option Json :=
   match op with
   | "c13_code" => some (runCode j)
+  | "c13_rows" => some (runRows j)
   | "c13_design" => some (runDesign j)
   | _ => none
 
